@@ -228,7 +228,7 @@ CHECKS = {
   category="exploration",
   text="The submission / answer / sentinel protocol with the failure actions Crash, Hang, DeadProbe is a TLA+ specification "
        "(spec/Robust.tla; TLC checks NeverDead and Responsive under fairness). TLC enumerates every string up to length 4 "
-       "(thorough 5; 6 for the tokenizer-level stages) over three 14-symbol alphabets (quoting / substitution, redirection / brace, "
+       "(thorough 5; 6 for the tokenizer-level stages) over four 14-symbol alphabets (quoting / substitution, redirection / brace, multi-byte, "
        "arithmetic), classifies each with the reference reader (totality checked) and simulates strings up to length 12 "
        "(spec/MCRobust.tla). Every string goes through every pure stage of the real code in-process (line_to_cmds, parse_line, "
        "tokens_to_line, tokens_to_redirections, Command::from_tokens, CommandLine::from_line with all expansions, is_arithmetic / "
